@@ -20,7 +20,7 @@
 From Coq Require Import ZArith QArith List Bool.
 From TI Require Import lib.FArith model.Sizing model.SizingSpec
      proofs.SizingProofs proofs.SizingHistory proofs.SizingTheorems.
-From TI Require gen.Pure proofs.PureTieSizing.
+From TI Require gen.Pure proofs.PureTieSizing gen.SizingSrc proofs.SizingSrcTie.
 Open Scope Z_scope.
 
 (** an automatically computed (or manual) size is a pair of positive integers, for every
@@ -312,3 +312,34 @@ Theorem C04_source_lines_of_px :
                           end.
 Proof. exact @TI.proofs.PureTieSizing.lines_of_px_is_source. Qed.
 Print Assumptions C04_source_lines_of_px.
+
+(** *** the sizing ALGORITHM itself, tied to the source as a theorem (T): [BaseImage._valid_size],
+    [_width_height_px], the two [_pixel_ratio]s and [get_cell_ratio] are translated statement by
+    statement from [image/common.py] / [__init__.py] on every run into [gen/SizingSrc.v] by
+    [harness/tx/tx_sizing.py] (typed: int = Z, float = [F FA], width/height arguments = [dim]);
+    for EVERY float arithmetic and ALL arguments of the API's domain ([dims_ok]: what [set_size]
+    lets through) the translated function is the model function all theorems above are about *)
+Theorem C04_source_valid_size :
+  forall (FA : FloatArith) fam (e : env FA) ow oh w h frame,
+    TI.proofs.SizingSrcTie.dims_ok w h = true ->
+    TI.gen.SizingSrc.src_valid_size
+      (px_of_cols fam e) (cols_of_px fam e) (px_of_lines fam e) (lines_of_px fam e)
+      (pixel_ratio fam e) ow oh (e_cols e) (e_lines e) w h (fst frame) (snd frame)
+    = valid_size fam e ow oh w h frame.
+Proof. exact @TI.proofs.SizingSrcTie.valid_size_is_source. Qed.
+Print Assumptions C04_source_valid_size.
+
+Theorem C04_source_pixel_ratio :
+  forall (FA : FloatArith) fam (e : env FA),
+    pixel_ratio fam e =
+    match fam with
+    | Graphics => TI.gen.SizingSrc.src_graphics_pixel_ratio
+    | Text => TI.gen.SizingSrc.src_text_pixel_ratio
+                (TI.gen.SizingSrc.src_get_cell_ratio (e_ratio e) (e_cell e))
+    end.
+Proof. exact @TI.proofs.SizingSrcTie.pixel_ratio_is_source. Qed.
+Print Assumptions C04_source_pixel_ratio.
+
+Theorem C04_source_default_frame : default_frame = TI.gen.SizingSrc.src_default_frame.
+Proof. exact TI.proofs.SizingSrcTie.default_frame_is_source. Qed.
+Print Assumptions C04_source_default_frame.
